@@ -122,7 +122,8 @@ def gauden : GauStage → List Ev
   | .mismatch => [alloc 0] ++ param 10 .ok ++ param 20 .ok ++ gauUnwind [0, 10, 11, 12, 20, 21, 22]
   | .ok => [alloc 0] ++ param 10 .ok ++ param 20 .ok ++ [free 20, alloc 30]
 
-/-! ## `feat_read_lda_s3file` (lda.c:83-125); 0,1 = the 3-d array, 9 = a previous `feat->lda` -/
+/-! ## `feat_read_lda_s3file` (lda.c:83-125); 0,1 = the 3-d array read by this call (data block, row table);
+8,9 = data block and row table of a previous `feat->lda` (allocated by an earlier, successful call) -/
 
 inductive LdaStage where
   | header
@@ -132,14 +133,19 @@ inductive LdaStage where
   | ok
 deriving Repr, DecidableEq
 
+/-- the previous matrix: allocated before, released by `ckd_free_3d(feat->lda)` (data block first, then the row
+table) once the header of the new file has been accepted -/
+def ldaOld (hadOld released : Bool) : List Ev :=
+  if hadOld then [alloc 8, alloc 9] ++ (if released then [free 8, free 9] else []) else []
+
 /-- `hadOld`: `feat->lda` was set before the call.  Returns the events and whether `feat->lda`
 is left pointing at freed memory (D19b: the pinned code leaves the old pointer in place). -/
 def lda (pinned hadOld : Bool) : LdaStage → List Ev × Bool
-  | .header => (if hadOld then [alloc 9] else [], false)
-  | .array s => ((if hadOld then [alloc 9, free 9] else []) ++ get3d pinned s, hadOld && pinned)
-  | .chksum => ((if hadOld then [alloc 9, free 9] else []) ++ get3d pinned .ok ++ [free 0, free 1], hadOld && pinned)
-  | .dims => ((if hadOld then [alloc 9, free 9] else []) ++ get3d pinned .ok, false)
-  | .ok => ((if hadOld then [alloc 9, free 9] else []) ++ get3d pinned .ok, false)
+  | .header => (ldaOld hadOld false, false)
+  | .array s => (ldaOld hadOld true ++ get3d pinned s, hadOld && pinned)
+  | .chksum => (ldaOld hadOld true ++ get3d pinned .ok ++ [free 0, free 1], hadOld && pinned)
+  | .dims => (ldaOld hadOld true ++ get3d pinned .ok, false)
+  | .ok => (ldaOld hadOld true ++ get3d pinned .ok, false)
 
 /-! ## `bin_mdef_read_s3file` (bin_mdef.c:336-590); 0 = `m`, 1 = `m->ciname`, 2 = `m->sseq`,
 3 = `m->cd2cisen`, 4 = `m->sen2cimap`, 5 = `m->ciname[0]` (the copy of an other-endian file) -/
@@ -211,6 +217,12 @@ allocation traces of the harness are abstracted to (tools/props/c17.py) -/
 
 def arrName : Nat → String
   | 0 => "s3file.c:*buf"
+  | _ => "s3file.c:*arr"
+
+/-- 0, 8 = the data block (`*buf` of `s3file_get_1d`), 1, 9 = the row table (`*arr`) -/
+def ldaName : Nat → String
+  | 0 => "s3file.c:*buf"
+  | 8 => "s3file.c:*buf"
   | _ => "s3file.c:*arr"
 
 def tmatName : Nat → String
